@@ -8,12 +8,15 @@ observed, only identity relative to the basis matters), the set of versioned
 ids, the basis tree (last commit) and a counter for fresh ids.
 
 `step : Flavour → State → Op → State × Out` models `WorkingTree.mkdir`, `add`,
-`remove(keep_files|force)`, `rename_one` / `move`, plain file edits and chmod,
-`commit`, `revert(backups=False)` and re-opening, for the dirstate (`bzr`)
+`remove(keep_files|force)`, `unversion`, `rename_one` / `move`, plain file /
+symbolic-link creation, edits and chmod, `commit`, `revert(backups=False|True)`
+of the whole tree, `revert([one file])` and re-opening, for the dirstate (`bzr`)
 and the git index (`git`) working trees.  In the git flavour directories are
-versioned exactly when they contain a versioned file (`pruneGit`), and adding
-below an unversioned directory versions the directories on the way.  Every
-operation that raises leaves the state unchanged.
+versioned exactly when they contain a versioned file (`pruneGit`), adding
+below an unversioned directory versions the directories on the way, and revert
+works in path space (`reidentify`: identity = path, exact renames by content;
+directories are never moved back).  Every operation that raises leaves the
+state unchanged.
 -/
 namespace BreezyVerif.C09
 open BreezyVerif.C10
